@@ -2,8 +2,11 @@
 package main
 
 import (
+	"encoding/json"
 	"fmt"
 	"os"
+
+	"verif/pipeline"
 
 	"verif/cfgcheck"
 	"verif/core"
@@ -32,7 +35,63 @@ var checks = map[string]func(tier string) *core.Report{
 	"C10": rtcheck.C10,
 }
 
+// replay prints a recorded violation and, when the shard that produced it is still in the cache,
+// re-runs the recorded answers on the real compiled program without the explorer.
+func replay(path string) {
+	b, err := os.ReadFile(path)
+	if err != nil {
+		fmt.Fprintln(os.Stderr, err)
+		os.Exit(2)
+	}
+	var f struct {
+		Property, Key, Kind, Detail string
+		Replay                      map[string]any
+	}
+	if err := json.Unmarshal(b, &f); err != nil {
+		fmt.Fprintln(os.Stderr, err)
+		os.Exit(2)
+	}
+	fmt.Printf("property %s\ncase     %s\nkind     %s\ndetail   %s\n", f.Property, f.Key, f.Kind, f.Detail)
+	for _, k := range []string{"source", "generated", "unoptimised"} {
+		if s, ok := f.Replay[k].(string); ok && s != "" {
+			fmt.Printf("---- %s\n%s\n", k, s)
+		}
+	}
+	shard, _ := f.Replay["shard"].(string)
+	id, _ := f.Replay["id"].(string)
+	if shard != "" && id != "" {
+		if _, err := os.Stat(shard + "/worker"); err == nil {
+			var ans []int
+			if xs, ok := f.Replay["answers"].([]any); ok {
+				for _, x := range xs {
+					if v, ok := x.(float64); ok {
+						ans = append(ans, int(v))
+					}
+				}
+			}
+			panicAt := -1
+			if v, ok := f.Replay["panic_at"].(float64); ok {
+				panicAt = int(v)
+			}
+			fmt.Printf("---- re-executing %s with answers %v, panic at %d\n", id, ans, panicAt)
+			o := progcheck.TierOf("quick").Opts
+			fmt.Print(pipeline.Replay(&pipeline.Built{Dir: shard}, o, id, ans, panicAt))
+			return
+		}
+		fmt.Println("(the shard that produced this replay is no longer cached; recorded logs follow)")
+	}
+	for _, k := range []string{"reference", "impl", "model", "real"} {
+		if v, ok := f.Replay[k]; ok {
+			fmt.Printf("---- %s\n%v\n", k, v)
+		}
+	}
+}
+
 func main() {
+	if len(os.Args) == 3 && os.Args[1] == "replay" {
+		replay(os.Args[2])
+		return
+	}
 	if len(os.Args) < 3 || os.Args[1] != "check" {
 		fmt.Fprintln(os.Stderr, "usage: verif check <id> [--tier quick|thorough]")
 		os.Exit(2)
